@@ -27,6 +27,8 @@ OBLIGATION_MSGS = [
     'unreachable', 'could not prove termination', 'loop invariant not satisfied',
     'assertion not satisfied', 'possible out-of-bounds', 'index out of bounds',
     'failed precondition', 'termination',
+    'unable to prove post-condition of closure', 'unable to prove pre-condition of closure',
+    'unable to prove', 'might not be allowed',
 ]
 UNDECIDED_MSGS = ['Resource limit', 'rlimit', 'timed out', 'canceled']
 
